@@ -36,7 +36,8 @@ Tie    : both Coq models (binary64 instance) are run on the same inputs and ever
          (input perturbations move both sides of such a comparison together, so they cannot
          reveal it) and the model's own answer is unchanged under 8 random relative 2^-50
          perturbations of the input (margins of the sign decisions on differences of dot
-         products clear), the continuous ones must lie within 4x the spread over those perturbations
+         products clear) and the two points differ by more than 1e-9 L (two carriers of numerically
+         the same point are a tie by definition), the continuous ones must lie within 4x the spread over those perturbations
          + 16 ulp of the scale.  A mismatch on a stable case is re-examined with 40 more
          perturbations before it counts.
 """
@@ -716,9 +717,11 @@ def compare_jolt(case, r, e, extra=None):
     stable = all(pm["st"] == 1 and pm["bits"] == m["bits"] for pm in perts)
     if not stable:
         return "skipped-unstable", ""
-    if m["bits"] != j["bits"]:
-        return "suspect", f"bit set: impl {j['bits']} model {m['bits']} (stable under {len(perts)} perturbations)"
     L = max(abs(x) for y in case["pts"] for x in y)
+    if m["bits"] != j["bits"]:
+        if norm([a - b for a, b in zip(v, m["v"])]) <= 1e-9 * max(1.0, L):
+            return "skipped-tie", ""   # two carriers of (numerically) the same point: a tie by definition
+        return "suspect", f"bit set: impl {j['bits']} model {m['bits']} (stable under {len(perts)} perturbations), points differ: {v} vs {m['v']}"
     sp = _spread(m["v"] + [m["len"]], [pm["v"] + [pm["len"]] for pm in perts])
     for i in range(3):
         if abs(v[i] - m["v"][i]) > 4 * sp[i] + 16 * EPS * L:
@@ -761,7 +764,9 @@ def compare_orig(case, r, e, extra=None):
     if not stable:
         return "skipped-unstable", ""
     if m["ord"] != o["idx"]:
-        return "suspect", f"ordered indices: impl {o['idx']} model {m['ord']} (stable under {len(perts)} perturbations)"
+        if norm([a - b for a, b in zip(v, m["v"])]) <= 1e-9 * max(1.0, L):
+            return "skipped-tie", ""   # two carriers of (numerically) the same point: a tie by definition
+        return "suspect", f"ordered indices: impl {o['idx']} model {m['ord']} (stable under {len(perts)} perturbations), points differ: {v} vs {m['v']}"
     sp = _spread(m["v"] + [m["d2"]], [pm["v"] + [pm["d2"]] for pm in perts])
     for i in range(3):
         if abs(v[i] - m["v"][i]) > 4 * sp[i] + 16 * EPS * L:
